@@ -319,7 +319,7 @@ Outcome run_case_inner(const Case &c) {
   for (auto &e : c.eps) {
     run_episode(x, e);
     // settle (detached threads)
-    for (int i = 0; i < 100 && va::live_count() != live0; i++) { struct timespec ts = {0, 1000000}; nanosleep(&ts, NULL); }
+    for (int i = 0; i < 5000 && va::live_count() != live0; i++) { struct timespec ts = {0, 1000000}; nanosleep(&ts, NULL); }
     long dl = (long)va::live_count() - (long)live0;
     if (dl != 0) { fail("alloc:" + e.kind, "after episode " + std::to_string(idx) + " (" + e.kind + " " + std::to_string(e.a) + " " + std::to_string(e.b) + " " + std::to_string(e.c) + " " + std::to_string(e.d) + ") " + std::to_string(dl) + " library block(s) remain allocated"); break; }
     int dfd = count_fds() - fds0;
